@@ -356,6 +356,16 @@ def run_case(ctx, case):
     gk = d.to_fourier(g)                  # a later transform must not disturb earlier results or the caller's inputs
     if not np.array_equal(fk, fk_keep) or not np.array_equal(f, f_keep) or np.shares_memory(fk, gk) or np.shares_memory(fk, f):
         ctx.violation('transform-result-or-input-overwritten', 'to_fourier/to_real changed its input or an earlier result (shared buffer?) (L=%d)' % L)
+    # one work buffer refilled in place between two calls: the result belongs to the contents, not to the array object
+    ctx.hook('refilled_buffer_probe')
+    buf = np.array(g)
+    d.to_fourier(buf)
+    buf[:] = f
+    bufk = np.array(gk)
+    d.to_real(bufk)
+    bufk[:] = fk_keep
+    if not np.array_equal(np.asarray(d.to_fourier(buf)), fk_keep) or not np.array_equal(np.asarray(d.to_real(bufk)), np.asarray(back)):
+        ctx.violation('transform-stale-result-for-refilled-buffer', 'transforming one array object twice, refilled in place in between, does not give the transform of its current contents (L=%d)' % L)
     tol = tolscale * max(np.abs(f).max(), 1e-300)
     e1 = np.abs(back - f).max() / tol
     e2 = np.abs(d.to_fourier(d.to_real(f)) - f).max() / tol
